@@ -5,6 +5,7 @@
 //     paths x EVERY plaintext length 0..80 + {255,256,257,4096} x associated data nil and EVERY length 0..40,
 //     compared byte for byte with the RFC 5297 reference (ref/siv.go); determinism; decrypt inverts; a mutation
 //     catalogue whose verdict is taken from the reference decryption (reject, except nil <-> empty AD);
+//   - the factory's legacy-primitive adapter (daead_factory.go fullDAEADPrimitiveAdapter): see legacy.go;
 //   - the XOREndAndCompute / Compute seams of internal/mac/aescmac and the CTR seam (bits 31/63 cleared);
 //   - AES-KWP: EVERY payload length 16..8192 x KEK {16,32} vs the RFC 5649 reference (ref/kwp.go),
 //     Unwrap(Wrap(p)) = p, refusal outside 16..8192, and for a lattice of lengths bit flips, wrong sizes and
@@ -1003,12 +1004,13 @@ func main() {
 		os.Exit(2)
 	}
 	h.Main("C08", "exploration",
-		"AES-SIV: product of (key covering each msb(L),msb(K1) branch x variant x id x construction path) x every plaintext length 0..80,255,256,257,4096 x AD nil and every length 0..40 (x patterns): ciphertext byte-identical to prefix||RFC 5297 reference, deterministic, decrypt inverts; mutation catalogue (every bit flip, truncation, extension, prefixes, AD edits, related keys, splices) with the verdict of the reference decryption. Seams: XOREndAndCompute/Compute vs CMAC(data xorend last), CTR with crafted SIVs. AES-KWP: every payload length 16..8192 x KEK 16/32 x 2 patterns vs RFC 5649 reference, Unwrap inverts, sizes outside refused; on a lattice of lengths bit flips, wrong sizes and crafted wrappings W(malformed AIV/length/padding) with the verdict of the reference unwrap. Non-trivial = a primitive was built and exercised; distinct = distinct choice vectors.",
+		"AES-SIV: product of (key covering each msb(L),msb(K1) branch x variant x id x construction path) x every plaintext length 0..80,255,256,257,4096 x AD nil and every length 0..40 (x patterns): ciphertext byte-identical to prefix||RFC 5297 reference, deterministic, decrypt inverts; mutation catalogue (every bit flip, truncation, extension, prefixes, AD edits, related keys, splices) with the verdict of the reference decryption. Legacy adapter: custom key manager returning the raw reference primitive x prefix type (TINK/CRUNCHY/LEGACY/RAW) x id x keyset shape (single, every position among heterogeneous keys, primary or not, with/without RAW keys) x plaintext length 0..70 + long x AD nil/empty/short/long: ciphertext = prefix(primary)||reference, deterministic, no aliasing, mutation catalogue judged by the union of the enabled entries' reference decryptions. Seams: XOREndAndCompute/Compute vs CMAC(data xorend last), CTR with crafted SIVs. AES-KWP: every payload length 16..8192 x KEK 16/32 x 2 patterns vs RFC 5649 reference, Unwrap inverts, sizes outside refused; on a lattice of lengths bit flips, wrong sizes and crafted wrappings W(malformed AIV/length/padding) with the verdict of the reference unwrap. Non-trivial = a primitive was built and exercised; distinct = distinct choice vectors.",
 		[]h.Section{
 			{Name: "aessiv", Body: sivSection, Bound: -1},
 			{Name: "aessiv-keyset", Body: sivKeysetSection, Bound: -1},
+			{Name: "legacy-adapter", Body: legacyAdapterSection, Bound: -1},
 			{Name: "cmac-xorend-seam", Body: xorendSection, Bound: -1},
-			{Name: "siv-ctr-seam", Body: ctrSection, Bound: -1},
+			{Name: "siv-ctr-seam", Body: ctrSection, Bound: -1, Seam: true},
 			{Name: "kwp-all-lengths", Body: kwpAllSection, Bound: -1},
 			{Name: "kwp-refused", Body: kwpRefusedSection, Bound: -1},
 			{Name: "kwp-negative", Body: kwpNegativeSection, Bound: -1},
